@@ -123,6 +123,11 @@ def check_frame(ctx, pfx, adt, table, why):
         ctx.unknown(pfx + '.frame', A, 'struct', why='struct %s not found' % adt)
         return
     w = field_writers(ctx.facts, adt)
+    ctx.extra['frame_scan'] = {'bodies_scanned_for_writers': sum(1 for b in ctx.facts.bodies if ctx.facts.is_hand_written(b)),
+                               'rule': 'crate-wide THIR scan: Assign/AssignOp/&mut-borrow/struct literal/foreign &mut hand-off per field; private writers attributed to the entry points that reach them'}
+    ctx.extra.setdefault('frame_structs', [])
+    if adt not in ctx.extra['frame_structs']:
+        ctx.extra['frame_structs'].append(adt)
     for fl in st['fields']:
         f = fl['name']
         allowed = table.get(f)
